@@ -12,9 +12,13 @@ import random
 
 
 class Choices:
-    __slots__ = ("seed", "_rng", "_replay", "pos", "log", "overrun")
+    __slots__ = ("seed", "_rng", "_replay", "pos", "log", "overrun", "_force")
 
-    def __init__(self, seed=None, replay=None):
+    def __init__(self, seed=None, replay=None, force=None):
+        """``force``: {label: value} -- draws with these labels return the given value (used to build the fixed,
+        enumerated cases of a check; the forced values are logged like any other, so the recorded decision list
+        replays without ``force``)."""
+        self._force = dict(force) if force else None
         self.seed = seed
         self._replay = None if replay is None else list(replay)
         self._rng = random.Random(seed) if replay is None else None
@@ -28,7 +32,9 @@ class Choices:
         n = int(n)
         if n <= 1:
             return 0
-        if self._replay is not None:
+        if self._force is not None and label in self._force:
+            v = int(self._force[label]) % n
+        elif self._replay is not None:
             if self.pos < len(self._replay):
                 v = int(self._replay[self.pos]) % n
             else:
